@@ -142,7 +142,11 @@ def run_one(mod, tier, verif_seed, i):
     try:
         rng = random.Random(run_seed)
         plan = mod.gen(rng, tier, i)
-        out = guarded_run(mod, plan, sched_seed=run_seed)
+        # (the schedule tape gets a seed of its own: seeded like the plan
+        # generator it would replay the generator's stream, and a plan chosen
+        # by an early draw would always meet the same early schedule choices)
+        out = guarded_run(mod, plan,
+                          sched_seed=derive_seed(run_seed, 'tape'))
         out['plan'] = plan
     except Exception:
         return {'i': i, 'run_seed': run_seed, 'harness': traceback.format_exc(),
@@ -360,7 +364,8 @@ def replay_file(path, quiet=False):
     if doc.get('log_digest') == 'timeout' and not doc['schedule']:
         # a run that never ended has no recorded tape: it is re-generated
         # from the run's seed
-        out = guarded_run(mod, doc['plan'], sched_seed=doc['run_seed'])
+        out = guarded_run(mod, doc['plan'],
+                          sched_seed=derive_seed(doc['run_seed'], 'tape'))
     else:
         out = guarded_run(mod, doc['plan'], sched_values=doc['schedule'])
     sigs = _sig_set(out)
